@@ -3,12 +3,16 @@ package main
 import (
 	"encoding/json"
 	"fmt"
+	"math"
+	"sort"
 	"strings"
 
+	"github.com/esimov/gogu/bstree"
 	"github.com/esimov/gogu/cache"
 	"github.com/esimov/gogu/heap"
 	"github.com/esimov/gogu/queue"
 	"github.com/esimov/gogu/stack"
+	"github.com/esimov/gogu/trie"
 	"verif/core"
 )
 
@@ -547,6 +551,259 @@ func init() {
 			}
 			fmt.Println("  not reproduced")
 			return 0
+		}
+	}
+}
+
+// ---------------------------------------------------------------- more families (round 3 of the seeded changes)
+
+func init() {
+	// C04: many keys. Every n up to N keys inserted ascending, descending or outside-in, then a full
+	// Traverse (a traversal that hands items over in batches only shows its seams beyond a batch), lookups,
+	// deletion of every second key and another Traverse.
+	prev4 := extras["C04"]
+	extras["C04"] = func(rep *core.Report) {
+		if prev4 != nil {
+			prev4(rep)
+		}
+		N := 400
+		if thorough {
+			N = 1500
+		}
+		trans := 0
+		for n := 1; n <= N; n += 1 + n/40 {
+			for shape := 0; shape < 3; shape++ {
+				keys := make([]int, n)
+				for i := range keys {
+					switch shape {
+					case 0:
+						keys[i] = i
+					case 1:
+						keys[i] = n - 1 - i
+					default: // outside-in: 0, n-1, 1, n-2, ...
+						if i%2 == 0 {
+							keys[i] = i / 2
+						} else {
+							keys[i] = n - 1 - i/2
+						}
+					}
+				}
+				t := bstree.New[int, string](func(a, b int) bool { return a < b })
+				for _, k := range keys {
+					t.Upsert(k, fmt.Sprint("v", k))
+				}
+				trans += n
+				wit := fmt.Sprintf("BsTree: %d keys upserted in order shape %d (0 ascending, 1 descending, 2 outside-in)", n, shape)
+				chk := func(stage string, present func(k int) bool) bool {
+					var got []int
+					bad := ""
+					t.Traverse(func(it bstree.Item[int, string]) {
+						got = append(got, it.Key)
+						if it.Val != fmt.Sprint("v", it.Key) && bad == "" {
+							bad = fmt.Sprintf("key %d carries value %q", it.Key, it.Val)
+						}
+					})
+					want := 0
+					for k := 0; k < n; k++ {
+						if present(k) {
+							if want >= len(got) || got[want] != k {
+								bad = fmt.Sprintf("position %d: want key %d", want, k)
+								break
+							}
+							want++
+						}
+					}
+					if bad == "" && want != len(got) {
+						bad = fmt.Sprintf("visited %d items, want %d", len(got), want)
+					}
+					if bad != "" {
+						rep.Add("BsTree.Traverse/differs-from-ordered-map/many-keys", fmt.Sprintf("%s, %s: %s", wit, stage, bad), wit, nil)
+						return false
+					}
+					for k := -1; k <= n; k += 1 + n/50 {
+						it, err := t.Get(k)
+						if p := k >= 0 && k < n && present(k); p != (err == nil) || (p && it.Val != fmt.Sprint("v", k)) {
+							rep.Add("BsTree.Get/many-keys", fmt.Sprintf("%s, %s: Get(%d) = (%v, %v)", wit, stage, k, it, err), wit, nil)
+							return false
+						}
+					}
+					return true
+				}
+				if !chk("after the upserts", func(int) bool { return true }) {
+					continue
+				}
+				for k := 0; k < n; k += 2 {
+					if err := t.Delete(k); err != nil {
+						rep.Add("BsTree.Delete/present-key-reported-not-found/many-keys", fmt.Sprintf("%s: Delete(%d) = %v", wit, k, err), wit, nil)
+						break
+					}
+				}
+				trans += n / 2
+				chk("after deleting every second key", func(k int) bool { return k%2 == 1 })
+			}
+		}
+		rep.Inc("transitions", trans)
+		rep.Inc("traces_validated_against_impl", trans)
+		rep.Set("many_keys_family", fmt.Sprintf("n up to %d keys x 3 insertion shapes", N))
+	}
+
+	// C09: large results. n keys, Keys()/StartsWith drained completely and in two portions.
+	prev9 := extras["C09"]
+	extras["C09"] = func(rep *core.Report) {
+		if prev9 != nil {
+			prev9(rep)
+		}
+		N := 700
+		if thorough {
+			N = 2600
+		}
+		trans := 0
+		for n := 1; n <= N; n += 1 + n/30 {
+			tr := trie.New[string, int](queue.New[string]())
+			var want []string
+			for i := 0; i < n; i++ {
+				k := fmt.Sprintf("%c%03d", 'a'+i%3, i)
+				tr.Put(k, i)
+				want = append(want, k)
+			}
+			sort.Strings(want)
+			trans += n
+			wit := fmt.Sprintf("Trie with %d keys", n)
+			if tr.Size() != n {
+				rep.Add("Trie.Size/many-keys", fmt.Sprintf("%s: Size = %d", wit, tr.Size()), wit, nil)
+			}
+			for _, firstPart := range []int{n, n * 3 / 4, 1} {
+				q, err := tr.Keys()
+				if err != nil {
+					rep.Add("Trie.Keys/many-keys/error", fmt.Sprintf("%s: %v", wit, err), wit, nil)
+					break
+				}
+				var got []string
+				for i := 0; i < firstPart && q.Size() > 0; i++ {
+					k, _ := q.Dequeue()
+					got = append(got, k)
+				}
+				got = append(got, drainQ(q)...)
+				if fmt.Sprint(got) != fmt.Sprint(want) {
+					d := 0
+					for d < len(got) && d < len(want) && got[d] == want[d] {
+						d++
+					}
+					rep.Add("Trie.Keys/differs/many-keys", fmt.Sprintf("%s: Keys() drained (%d first, then the rest) yields %d keys, want %d; first difference at position %d", wit, firstPart, len(got), len(want), d), wit, nil)
+					break
+				}
+			}
+			q, _ := tr.StartsWith("b")
+			var wb []string
+			for _, k := range want {
+				if k[0] == 'b' {
+					wb = append(wb, k)
+				}
+			}
+			if got := drainQ(q); fmt.Sprint(got) != fmt.Sprint(wb) {
+				rep.Add("Trie.StartsWith/differs/many-keys", fmt.Sprintf("%s: StartsWith(b) yields %d keys, want %d", wit, len(got), len(wb)), wit, nil)
+			}
+		}
+		rep.Inc("transitions", trans)
+		rep.Inc("traces_validated_against_impl", trans)
+		rep.Set("many_keys_family", fmt.Sprintf("n up to %d keys", N))
+	}
+
+	// C05: deep queues. Enqueue n, then n+1 Dequeues with every value, Size and Peek checked.
+	prev5 := extras["C05"]
+	extras["C05"] = func(rep *core.Report) {
+		prev5(rep)
+		deep := 1500
+		if thorough {
+			deep = 5000
+		}
+		for _, comp := range []string{"Queue", "LQueue"} {
+			comp := comp
+			d := deep
+			if comp == "LQueue" {
+				d = 200 // the linked queue walks its list on every Enqueue
+			}
+			trans := 0
+			for n := 1; n <= d; n++ {
+				if n > 300 && n%7 != 0 && n&(n-1) != 0 && (n-1)&(n-2) != 0 {
+					continue
+				}
+				var q fifo
+				first := 1
+				if comp == "Queue" {
+					q = sliceQ{queue.New[int]()}
+				} else {
+					q = linkedQ{queue.NewLinked[int](1)}
+					first = 2
+				}
+				for v := first; v <= n; v++ {
+					q.Enqueue(v)
+				}
+				trans += 2 * n
+				wit := fmt.Sprintf("%s: Enqueue 1..%d, then Dequeue until empty", comp, n)
+				for v := 1; v <= n; v++ {
+					if p := q.Peek(); p != v {
+						rep.Add(comp+".Peek/long-run/not-next-dequeue", fmt.Sprintf("%s: Peek = %d before the %d-th Dequeue", wit, p, v), wit, nil)
+						break
+					}
+					got, ok := q.Dequeue()
+					if !ok || got != v {
+						rep.Add(comp+".Dequeue/long-run/not-fifo", fmt.Sprintf("%s: the %d-th Dequeue returned (%d, ok=%t)", wit, v, got, ok), wit, nil)
+						break
+					}
+					if sz := q.Size(); sz != n-v {
+						rep.Add(comp+".Size/long-run/wrong", fmt.Sprintf("%s: Size = %d after %d Dequeues", wit, sz, v), wit, nil)
+						break
+					}
+				}
+			}
+			rep.Inc("transitions", trans)
+			rep.Inc("traces_validated_against_impl", trans)
+		}
+	}
+
+	// C07: capacities around the sizes where storage strategies switch (64, 128), and a key type whose
+	// == is not reflexive.
+	prev7 := extras["C07"]
+	extras["C07"] = func(rep *core.Report) {
+		prev7(rep)
+		caps := []int{31, 32, 33, 62, 63, 64, 65, 100, 127, 128, 129}
+		if thorough {
+			caps = append(caps, 255, 256, 257, 500)
+		}
+		for _, capacity := range caps {
+			capacity := capacity
+			var hs [][]lrPhase
+			for _, over := range []int{0, 1, 2, capacity / 2, capacity + 3} {
+				for _, g := range []int{0, 1, 9} {
+					hs = append(hs, []lrPhase{{"Add", capacity + over}, {"Get#0", g}, {fmt.Sprintf("Get#%d", capacity/2), g}, {"Add", 3}, {"Cycle", 5}})
+				}
+			}
+			lrRun(rep, fmt.Sprintf("LRU(cap=%d)", capacity), hs, func(ph []lrPhase, fail lrFail) { lrLRU(capacity, ph, fail) })
+		}
+		// NaN keys: an entry that can never be found again must still respect the capacity and be evictable
+		for capacity := 1; capacity <= 3; capacity++ {
+			c, _ := cache.NewLRU[float64, int](capacity)
+			nan := math.NaN()
+			wit := fmt.Sprintf("LRU[float64] cap=%d with NaN keys", capacity)
+			for i := 0; i < capacity+3; i++ {
+				k := nan
+				if i%2 == 1 {
+					k = float64(i)
+				}
+				c.Add(k, i)
+				if n := c.Count(); n > capacity {
+					rep.Add("LRU.Count/exceeds-capacity/non-reflexive-key", fmt.Sprintf("%s: Count = %d after %d Adds", wit, n, i+1), wit, nil)
+					break
+				}
+			}
+			for i := 0; i < capacity+2; i++ {
+				c.RemoveOldest()
+			}
+			if n := c.Count(); n != 0 {
+				rep.Add("LRU.Count/nonzero-after-drain/non-reflexive-key", fmt.Sprintf("%s: Count = %d after removing the oldest entry %d times", wit, n, capacity+2), wit, nil)
+			}
+			rep.Inc("transitions", 2*capacity+5)
 		}
 	}
 }
